@@ -379,7 +379,33 @@ pub fn goldgen(t: &dyn TypeOps, cx: &mut Cx) {
 // ------------------------------------------------------------------ C07
 
 /// Padding and byte counts, with every start-offset residue through the inner API.
+/// The padding formula itself, over all power-of-two units and offsets at every boundary of the
+/// `usize` range (run once, while the unit type is being explored).
+fn c07_formula(cx: &mut Cx) {
+    let mut offs: Vec<usize> = (0..=130).collect();
+    for j in 0..usize::BITS { for d in [0usize, 1, 2, 3] { offs.push((1usize << j).wrapping_add(d)); offs.push((1usize << j).wrapping_sub(d)); } }
+    for d in 0..=130usize { offs.push(usize::MAX - d); }
+    offs.sort(); offs.dedup();
+    let mut bad = 0u64;
+    for k in 0..usize::BITS {
+        let unit = 1usize << k;
+        for &o in &offs {
+            cx.evals += 1;
+            let want = (unit - o % unit) % unit;
+            let got = epserde::pad_align_to(o, unit);
+            if got != want {
+                bad += 1;
+                if bad <= 8 { cx.violate("pad-align-to-formula", json!({"offset": format!("{:#x}", o), "unit": format!("{:#x}", unit), "expected": want, "observed": got})); }
+            }
+        }
+    }
+    cx.transitions += offs.len() as u64 * usize::BITS as u64;
+    cx.count("padding_formula_pairs", offs.len() as u64 * usize::BITS as u64);
+    cx.outcome(if bad == 0 { "padding-formula-ok" } else { "padding-formula-wrong" });
+}
+
 pub fn c07(t: &dyn TypeOps, cx: &mut Cx) {
+    if cx.type_id == "()" { c07_formula(cx); }
     let ty = t.ty();
     let n = build(t, cx);
     let nres = cx.tier.pick(64usize, 128);
